@@ -518,6 +518,19 @@ inline void Emit(FILE* out, const std::string& scenario_name, const std::string&
 
 // The scheduler's run queue is private; the including TU must have been compiled with access to it
 // (harnesses do `#define private public` around the yaclib includes *before* including this header).
+namespace vrt::detail {
+// the sleep map's key is the deadline (a change of the key type, e.g. to (deadline, something), must not stop the
+// harness from compiling: it would turn a concrete finding into "no failing input found")
+template <typename K>
+inline std::uint64_t SleepKeyTime(const K& k) {
+  if constexpr (std::is_integral_v<K>) {
+    return static_cast<std::uint64_t>(k);
+  } else {
+    return static_cast<std::uint64_t>(k.first);
+  }
+}
+}  // namespace vrt::detail
+
 #define VRT_DEFINE_QUEUE_ACCESS()                                                                                      \
   namespace vrt::detail {                                                                                              \
   inline bool QueueEmpty() {                                                                                           \
@@ -525,6 +538,6 @@ inline void Emit(FILE* out, const std::string& scenario_name, const std::string&
     /* to the run queue only at the next scheduler iteration) */                                                       \
     return g.sched == nullptr ||                                                                                       \
            (g.sched->_queue.Empty() &&                                                                                 \
-            (g.sched->_sleep_list.empty() || g.sched->_sleep_list.begin()->first > g.sched->_time));                   \
+            (g.sched->_sleep_list.empty() || SleepKeyTime(g.sched->_sleep_list.begin()->first) > g.sched->_time));     \
   }                                                                                                                    \
   }
